@@ -213,6 +213,45 @@ def project_word_evaluated(repo: Repo, pw: FuncInfo):
     return OK, "blockwise selection of the information positions for 1..3 blocks per row, 1-D/2-D/3-D inputs, two information sets; invalid length rejected"
 
 
+#: the per-word operations of an encoder: each accepts inputs whose last dimension holds several blocks
+WORD_API = ("forward", "inverse_encode", "calculate_syndrome", "extract_message", "project_word")
+
+
+def rule_api_blockwise(repo: Repo, rep: Report) -> int:
+    """Every definition (base class or override) of a per-word operation of a block-code encoder treats the last axis as a
+    run of blocks: it goes through `apply_blockwise`, reshapes to rows of n (or k) symbols itself, or hands over to another
+    per-word operation / the parent's.  A definition that indexes the last axis of its input directly with an index set
+    (`x[..., self.information_set]`) reads one block and is wrong for (..., b*n) inputs."""
+    n = 0
+    classes = [repo.cls(LIN, "LinearBlockCodeEncoder")] + [c for c in repo.subclasses("LinearBlockCodeEncoder") if c.file.startswith(ENC + "/")]
+    for ci in classes:
+        for m in WORD_API:
+            fi = ci.methods.get(m)
+            if fi is None:
+                continue
+            params = [p_ for p_ in fi.params if p_ != "self"]
+            if not params:
+                continue
+            x = params[0]
+            n += 1
+            txt = unparse(fi.node)
+            blockwise = "apply_blockwise(" in txt
+            delegates = any(isinstance(c_, ast.Call) and ((attr_chain(c_.func) or "").startswith("self.") and (attr_chain(c_.func) or "")[5:] in WORD_API and (attr_chain(c_.func) or "")[5:] != m or unparse(c_.func).startswith("super().")) and any(isinstance(a_, ast.Name) and a_.id == x for a_ in ast.walk(c_)) for c_ in ast.walk(fi.node))
+            rows = any(isinstance(c_, ast.Call) and isinstance(c_.func, ast.Attribute) and c_.func.attr in ("reshape", "view") and isinstance(c_.func.value, ast.Name) and c_.func.value.id == x and c_.args and unparse(c_.args[0]) == "-1" for c_ in ast.walk(fi.node))
+            stub = all(isinstance(s_, (ast.Raise, ast.Pass)) or (isinstance(s_, ast.Expr) and isinstance(s_.value, ast.Constant)) for s_ in fi.body)
+            direct = [sub for sub in ast.walk(fi.node) if isinstance(sub, ast.Subscript) and isinstance(sub.value, ast.Name) and sub.value.id == x and isinstance(sub.slice, ast.Tuple) and sub.slice.elts and isinstance(sub.slice.elts[0], ast.Constant) and sub.slice.elts[0].value is Ellipsis and not isinstance(sub.slice.elts[-1], (ast.Slice, ast.Constant))]
+            construct = f"{ci.name}.{m}({x}): blocks along the last axis"
+            if blockwise or rows or stub:
+                rep.ok("BLOCKWISE", fi, construct, "handled block by block (apply_blockwise / rows of one word)", nontrivial=False)
+            elif direct and not delegates:
+                rep.violation("BLOCKWISE", fi, f"{construct}: {unparse(direct[0])}", f"`{unparse(direct[0])}` indexes the last axis of the input as if it held a single word: for an input of b concatenated blocks only the positions of the first block are read (the result has k instead of b*k symbols, and a length that is not a multiple of n is accepted)", node=direct[0])
+            elif delegates:
+                rep.ok("BLOCKWISE", fi, construct, "hands its input to another per-word operation", nontrivial=False)
+            else:
+                rep.undecided("BLOCKWISE", fi, construct, "neither apply_blockwise, nor rows of one word, nor a delegation", node=fi.node)
+    return n
+
+
 def rule_blockwise(repo: Repo, rep: Report) -> int:
     fi = repo.func(UTL, "apply_blockwise")
     body = [unparse(s) for s in fi.body]
@@ -275,6 +314,12 @@ def run(repo: Repo, rep: Report, tier: str) -> None:
     n = rule_right_inverse(repo, rep)
     n += rule_inverse_form(repo, rep)
     n += rule_blockwise(repo, rep)
+    n += rule_api_blockwise(repo, rep)
+    # the generator of an LDPC code comes from the GF(2) elimination helper: its rank / pivots decide whether the encoded
+    # words are codewords of H at all (same rule as C01)
+    from .c01 import rule_row_reduction
+
+    n += rule_row_reduction(repo, rep)
     # the encoder side of the systematic round trip: message bit j at information_set[j], for every index list
     from .c01 import rule_systematic_forward
 
